@@ -128,3 +128,47 @@ Example C05_climber_shrinks_window :
   let '(p', lft) := pol_climb_adj (-2) p in
   qwin p' = [3] /\ qprob p' = [1; 2] /\ wwsize p' = 3 /\ wmax p' = 4 /\ pmax p' = 22 /\ lft = 0.
 Proof. vm_compute. repeat split. Qed.
+
+(* ---- index actions INSIDE a maintenance run (MaintSplit.v): a run is split into its drain part (XPre)
+   and its expire / evict / climb part (XPost); index actions, task arrivals in any order and reads may
+   come between the two — the node a run is about to expire or evict may have been replaced or
+   invalidated with the task that says so still in the write buffer.  The invariant holds in every
+   reachable state of that larger event system, and whenever nothing is pending the policy agrees with
+   the table. *)
+From Otter Require Import MaintSplit.
+
+Theorem C05_invariant_mid_maintenance_writes : forall hashf xs expire weighted,
+  runx_ok hashf (sys0 expire weighted) xs ->
+  SI (fold_left (sysx_step hashf) xs (sys0 expire weighted)).
+Proof. intros hashf xs expire weighted H. exact (SX_run hashf xs _ (SI_sys0 expire weighted) H). Qed.
+Print Assumptions C05_invariant_mid_maintenance_writes.
+
+Theorem C05_quiescent_mid_maintenance_writes : forall hashf xs expire weighted,
+  runx_ok hashf (sys0 expire weighted) xs ->
+  let s := fold_left (sysx_step hashf) xs (sys0 expire weighted) in
+  pend s = [] ->
+  let p := pol (sm s) in
+  NoDup (qwin p ++ qprob p ++ qprot p) /\
+  (forall id, linked p id <-> alive_in p id) /\
+  wsize p = wrapu (sum_weights p (qwin p ++ qprob p ++ qprot p)) /\
+  wwsize p = wrapu (sum_weights p (qwin p)) /\
+  pwsize p = wrapu (sum_weights p (qprot p)).
+Proof. exact policy_quiescent_x. Qed.
+Print Assumptions C05_quiescent_mid_maintenance_writes.
+
+(* the split is faithful: the two halves back to back are the whole run *)
+Theorem C05_split_is_the_whole_run : forall hashf s cur rnd now adj,
+  sysx_step hashf (sysx_step hashf s (XPre cur)) (XPost cur rnd now adj) = sys_step hashf s (EMaint cur rnd now adj).
+Proof. exact sysx_pre_post. Qed.
+Print Assumptions C05_split_is_the_whole_run.
+
+(* non-vacuity: key 7's node 1 is replaced by node 2 after a run has drained the buffer (node 1 linked)
+   and before that run's second half; the update task arrives later; at quiescence exactly node 2 is linked *)
+Example C05_mid_maintenance_replace :
+  let h := fun _ _ => 0 in
+  let s0 := sysx_step h (sys0 false false) (XE (ESetMax 10 1 7)) in
+  let xs := [XE (ECreate 1 7 1); XE (EPush 0); XPre (fun _ => 0); XE (EReplace 2 7 1 1); XPost (fun _ => 0) 1 0 0;
+             XE (EPush 0); XE (EMaint (fun _ => 0) 1 0 0)] in
+  let s := fold_left (sysx_step h) xs s0 in
+  pend s = [] /\ qwin (pol (sm s)) ++ qprob (pol (sm s)) ++ qprot (pol (sm s)) = [2].
+Proof. vm_compute. split; reflexivity. Qed.
